@@ -258,7 +258,7 @@ PROPS["C14"] = dict(
                  harnesses={"c14_native_initialisation": dict(anchor="random_spread",
                             bound="BOUNDED STAND-IN, native run: 40 seeds x sizes 0..4 x 4 domains / dimensions 0..5 for random_spread, random_permutation, random_bitstring"),
                             "c14_native_components": dict(anchor="initialisation and boundary-repair components",
-                            bound="BOUNDED STAND-IN, native run: RandomSpread/RandomPermutation/RandomBitstring/Empty components x sizes {0,1,2,7} x 16 seeds; Saturation/Toroidal/Mirror/CompleteOneTailedNormalCorrection components on a 27-point grid per coordinate (up to 1e6 widths outside, every half width up to 5) x 3 domains x 8 seeds (bounds, unchanged-inside, idempotence)")})],
+                            bound="BOUNDED STAND-IN, native run: RandomSpread/RandomPermutation/RandomBitstring/Empty components x sizes {0,1,2,7} x 16 seeds; Saturation/Toroidal/Mirror/CompleteOneTailedNormalCorrection components on a 27-point grid per coordinate (up to 1e6 widths outside, every half width up to 5) x 3 domains x 8 seeds (160 for the resampling operator) (bounds, unchanged-inside, idempotence)")})],
     min_obligations={"quick": 39, "thorough": 39},
     uncovered=["initialisation operators (rejection-sampling loops over a symbolic RNG are unbounded)", "resampling distribution",
                "boundary_constraint driver over populations"],
@@ -342,7 +342,7 @@ PROPS["C15"] = dict(
     kani=[dict(files=["contracts/C15/c15.rs"])],
     native=[dict(files=["contracts/C15/c15_config_native.rs"],
                  harnesses={"c15_native_config_serialisation": dict(anchor="Configuration export (serde/ron)",
-                            bound="BOUNDED STAND-IN, native run: 19 shipped templates (all but the two ACO ones) x 2..7 one-value parameter variations each: serialisable, clone identical, variations differ, components named; 6 hand-built structures pairwise different")}),
+                            bound="BOUNDED STAND-IN, native run: 19 shipped templates (all but the two ACO ones) x 2..7 one-value parameter variations each: serialisable, clone identical, variations differ, components named; 6 hand-built structures and 6 lens-target variants pairwise different")}),
             dict(files=[], inject=[dict(file="contracts/C15/c15_native.rs", into="src/logging/log.rs")],
                  harnesses={"c15_native_compressed_enumeration": dict(anchor="CompressedLog::from",
                             bound="BOUNDED STAND-IN, native exhaustive enumeration: all logs of <= 3 steps x <= 3 distinct names out of 4 (68921 logs)"),
